@@ -53,7 +53,17 @@ Op ==
         /\ store' = st2 /\ told' = told2
   /\ UNCHANGED <<id, ttl, now>>
 
-Next == Reset \/ Tick \/ Op
+\* one instance, several shards, one connection: an answer that differs from the only right one (the leases do not change hands
+\* in this phase), with the holder the store had at that time
+Conc ==
+  /\ IsEvent("Conc")
+  /\ LET r == Trace[l]
+         toldLeader == r.res = "leader" \/ (r.op = "renew" /\ r.res = "ok") IN
+     Report((IF toldLeader /\ r.holder # r.i THEN {"C15_ToldLeaderWithoutLease", "C15_TwoLeaders"} ELSE {})
+            \cup (IF ~toldLeader /\ r.res # r.want THEN {"C15_ReplyDiffers"} ELSE {}))
+  /\ UNCHANGED <<id, ttl, store, now, told>>
+
+Next == Reset \/ Tick \/ Op \/ Conc
 Spec == Init /\ [][Next]_vars
 TraceAccepted ==
   LET d == TLCGet("stats").diameter IN
